@@ -197,6 +197,22 @@ func cmdCheck(args []string) int {
 			}
 			s.Queries++
 			s.Ms += o.Ms
+			if o.Kind == "reach" {
+				// reachability: one feasible path is enough
+				if s.Queries == 1 {
+					s.Result = "failed"
+				}
+				if o.ok() {
+					s.Result = "discharged"
+					s.failed = nil
+					if s.Solver == "" {
+						s.Solver = o.Solver
+					}
+				} else if s.Result == "failed" {
+					s.failed = append(s.failed, o)
+				}
+				continue
+			}
 			if o.ok() {
 				if s.Solver == "" {
 					s.Solver = o.Solver
@@ -219,13 +235,13 @@ func cmdCheck(args []string) int {
 	// failures of a function that has other failed obligations are consequences, not separate failures
 	otherFail := map[string]bool{}
 	for _, n := range order {
-		if s := byName[n]; s.Result != "discharged" && s.Kind != "vac" {
+		if s := byName[n]; s.Result != "discharged" && s.Kind != "vac" && s.Kind != "reach" {
 			otherFail[s.Func] = true
 		}
 	}
 	for _, n := range order {
 		s := byName[n]
-		if s.Result != "discharged" && s.Kind == "vac" && otherFail[s.Func] {
+		if s.Result != "discharged" && (s.Kind == "vac" || s.Kind == "reach") && otherFail[s.Func] {
 			s.Result = "discharged"
 			s.Solver = "n/a (path already failed)"
 		}
